@@ -318,7 +318,7 @@ def worker(jobfile):
 
 def replay_files(prop, mod, files):
     """Regression tier: committed replays. reg-* must pass; kf-* must still fail as the listed finding."""
-    from .core import Violation
+    from .core import Violation, CaseTimeout
     out = {"evaluations": 0, "digests": [], "bulk_nontrivial": 0, "classes": {}, "samples": [], "kf_hits": {},
            "violations": [], "inconclusive": [], "exhaustive_domains": [], "kf_status": {}}
     known = load_known(prop)
@@ -337,6 +337,8 @@ def replay_files(prop, mod, files):
             failed = None
         except Violation as v:
             failed = v
+        except CaseTimeout:
+            failed = Violation("does-not-return", f"call did not return within {part.timeout:.0f} s")
         except Exception as e:  # noqa: BLE001
             if _from_library(e):
                 failed = Violation(f"raises:{type(e).__name__}", f"{type(e).__name__}: {str(e)[:200]} ({_where(e)})")
@@ -544,7 +546,7 @@ def run_check(prop, tier, seed, only=None, budget=None, jobs_max=None):
 
 
 def do_replay(prop, path):
-    from .core import Violation
+    from .core import Violation, CaseTimeout
     mod = importlib.import_module(f"vf.props.{prop.lower()}")
     with open(path) as f:
         rec = json.load(f)
@@ -559,6 +561,10 @@ def do_replay(prop, path):
             return 0
         print(f"VIOLATION property={prop} replay={path}")
         print(f"  {v}")
+        return 1
+    except CaseTimeout:
+        print(f"VIOLATION property={prop} replay={path}")
+        print(f"  [does-not-return] call did not return within {part.timeout:.0f} s")
         return 1
     except Exception as e:  # noqa: BLE001
         if _from_library(e):
